@@ -5,7 +5,7 @@
 set -e
 cd "$(dirname "$0")"
 export PIP_NO_INDEX=1
-V=/verif/.venv
+V="$(pwd)/.venv"
 if [ -x "$V/bin/python" ] && "$V/bin/python" -c 'import crosshair, z3, pydoctor' 2>/dev/null; then
   exit 0
 fi
